@@ -18,6 +18,12 @@
 //	                                      already removed before each of them — the legitimate nondeterminism,
 //	                                      fed to the model as its choice
 //
+//	crowd n=<k> w=<v>                     k fresh services spawned from ONE props (one scheDisp / run-service goroutine), each with
+//	                                      one request outstanding; the shared goroutine is parked inside a posted closure while
+//	                                      k foreign goroutines deliver one reply each (more than the dispatcher's 9-slot queue
+//	                                      holds when k > 9), then released: every reply callback, timer callback and posted
+//	                                      closure must run on that one goroutine and never two at a time
+//
 // script item:  R request with callback | r request with nil callback | N notify
 //
 //	F request+callback whose message cannot be serialised | f same, nil callback | n notify, not serialisable
@@ -44,6 +50,7 @@ import (
 	"strconv"
 	"strings"
 	"sync"
+	"sync/atomic"
 	"syscall"
 	"testing"
 	"testing/synctest"
@@ -136,25 +143,25 @@ type world struct {
 }
 
 type caseCtx struct {
-	w       *world
-	mu      sync.Mutex // bookkeeping below (a mutated implementation may call back from a foreign goroutine)
-	dead    bool
-	svc     *reqSvc
-	pid     *actor.PID
-	start   int64
-	gid     int
-	nextTag int
-	t0      map[int]int64 // tag -> issue time
-	kind    map[int]byte
-	done    map[int]bool // callback seen
-	iss     []string
-	cbs     []string
-	order   []string
-	pans    []string
-	inTO    int // >0 while a timeout callback is on the stack
+	w        *world
+	mu       sync.Mutex // bookkeeping below (a mutated implementation may call back from a foreign goroutine)
+	dead     bool
+	svc      *reqSvc
+	pid      *actor.PID
+	start    int64
+	gid      int
+	nextTag  int
+	t0       map[int]int64 // tag -> issue time
+	kind     map[int]byte
+	done     map[int]bool // callback seen
+	iss      []string
+	cbs      []string
+	order    []string
+	pans     []string
+	inTO     int            // >0 while a timeout callback is on the stack
 	reported map[int32]bool // nil-callback ids whose removal has been put into an order annotation
-	sent    []string
-	recv    map[int]*messages.ServiceRequest
+	sent     []string
+	recv     map[int]*messages.ServiceRequest
 }
 
 func (c *caseCtx) now() int64 { return common.NowMs() - c.start }
@@ -390,6 +397,112 @@ func mkResponse(id int32, kind string, wv int, code int32) *messages.ServiceResp
 	return r
 }
 
+type crowdSvc struct{ *as.Service }
+
+// crowd runs the shared-dispatcher scenario (see the op table) and returns its observation.
+func (w *world) crowd(n, wv int) string {
+	w.nCase++
+	name := fmt.Sprintf("c01crowd%d", w.nCase)
+	svcs := make([]*crowdSvc, 0, n)
+	props, _ := as.NewServicePropsWithNewScheDisp(func() actor.Actor {
+		s := &crowdSvc{Service: as.NewService()}
+		svcs = append(svcs, s)
+		return s
+	}, name)
+	pids := make([]*actor.PID, n)
+	for i := 0; i < n; i++ {
+		pid, err := w.sys.Root.SpawnNamed(props, fmt.Sprintf("%s-%d", name, i))
+		if err != nil {
+			return "bad-op"
+		}
+		pids[i] = pid
+		synctest.Wait() // keep producer calls (svcs order) aligned with pids
+	}
+	if len(svcs) != n {
+		return "bad-op"
+	}
+	var mu sync.Mutex
+	var active int32
+	gid := 0
+	cbs := make([]string, n)
+	counts := map[string]int{}
+	var viol []string
+	// every piece of service code goes through enter/leave
+	enter := func(what string) func() {
+		v := atomic.AddInt32(&active, 1)
+		g := common.GetRoutineID()
+		mu.Lock()
+		if gid != 0 && g != gid {
+			viol = append(viol, "ctx:"+what)
+		}
+		if v != 1 {
+			viol = append(viol, "conc:"+what)
+		}
+		mu.Unlock()
+		return func() { atomic.AddInt32(&active, -1) }
+	}
+	svcs[0].Post(func() { gid = common.GetRoutineID() })
+	synctest.Wait()
+	for i := 0; i < n; i++ {
+		i := i
+		svcs[i].Post(func() {
+			defer enter(fmt.Sprintf("issue%d", i))()
+			svcs[i].RequestEx(w.peerPid, "a.b", &messages.TestHello{I: int32(1000 + i)}, func(err error, msg interface{}) {
+				defer enter(fmt.Sprintf("cb%d", i))()
+				mu.Lock()
+				if cbs[i] != "" {
+					cbs[i] += "+"
+				}
+				cbs[i] += classify(err, msg)
+				mu.Unlock()
+			})
+		})
+	}
+	synctest.Wait()
+	release := make(chan struct{})
+	rs := svcs[0].GetRunService()
+	svcs[0].Post(func() {
+		defer enter("blocker")()
+		for j := 0; j < 3; j++ {
+			rs.GetTimerMgr().After(0, func(args ...interface{}) {
+				defer enter("timer")()
+				mu.Lock()
+				counts["timer"]++
+				mu.Unlock()
+			})
+			svcs[(j+1)%n].Post(func() {
+				defer enter("post")()
+				mu.Lock()
+				counts["post"]++
+				mu.Unlock()
+			})
+		}
+		<-release // the service goroutine is busy in a handler
+	})
+	synctest.Wait()
+	for i := 0; i < n; i++ {
+		i := i
+		go w.sys.Root.Send(pids[i], mkResponse(1, "ok", wv, 0)) // foreign goroutines post to every actor's mailbox
+	}
+	synctest.Wait()
+	close(release)
+	synctest.Wait()
+	mu.Lock()
+	defer mu.Unlock()
+	parts := make([]string, n)
+	left := 0
+	for i := 0; i < n; i++ {
+		c := cbs[i]
+		if c == "" {
+			c = "none"
+		}
+		parts[i] = fmt.Sprintf("%d:%s", i, c)
+		left += len(svcs[i].Handlers)
+	}
+	sort.Strings(viol)
+	return fmt.Sprintf("ok crowd=%d cb=%s timers=%d posts=%d left=%d viol=%s", n, strings.Join(parts, ","), counts["timer"], counts["post"], left, strings.Join(viol, ","))
+}
+
 // exec interprets one op line against the real code; it returns the op line
 // to record (the `adv` op gets its `order=` annotation) and the observation.
 func (w *world) exec(op string) (string, string) {
@@ -400,6 +513,13 @@ func (w *world) exec(op string) (string, string) {
 	if ws[0] == "reset" {
 		w.reset(ws)
 		return op, "ok"
+	}
+	if ws[0] == "crowd" {
+		n := hx.KVInt(ws, "n")
+		if n < 1 || n > 64 {
+			return op, "bad-op"
+		}
+		return op, w.crowd(n, hx.KVInt(ws, "w"))
 	}
 	c := w.cur
 	if c == nil {
@@ -684,6 +804,10 @@ func (g *gen) genCase(run func(string)) {
 			case y < 10:
 				h.Count("op.noroute")
 				run(fmt.Sprintf("noroute cb=%d", r.Intn(2)))
+			case y == 10 && r.Intn(3) == 0:
+				// > 9 services on one dispatcher, replies posted from foreign goroutines while it is busy
+				h.Count("op.crowd")
+				run(fmt.Sprintf("crowd n=%d w=%d", []int{3, 9, 10, 12, 13, 16, 24}[r.Intn(7)], r.Intn(1000)))
 			default:
 				// malformed op lines: both sides must reject them without touching the state
 				h.Count("op.malformed")
